@@ -159,6 +159,18 @@ def run_case(case, ctx):
         refx = np.sign(vh) * np.maximum(np.abs(vh) - param, 0)
         obj = lambda x: param * np.sum(np.abs(x)) + 0.5 * np.sum((x - vh) ** 2)
         comp = lambda r: refx + r.standard_normal(v.shape) * (nrm + 1) * 0.1
+        if rs.rand() < 0.2 and dt == "float64":
+            # the same operator on complex data (the sparse part of a complex robust PCA): the modulus shrinks, the phase stays
+            z = vh + 1j * rs.standard_normal(v.shape) * scale * gen.choice(rs, [0.0, 1.0, 1.0])
+            z = z.astype(np.complex128)
+            got = np.asarray(f(z.copy()))
+            mod = np.abs(z)
+            want = np.where(mod > 0, z / np.where(mod > 0, mod, 1), 0) * np.maximum(mod - param, 0)
+            ctx.count("l1_complex_input")
+            if got.shape != want.shape or not np.allclose(got, want, rtol=1e-12, atol=1e-12 * (float(np.max(mod, initial=0)) + param)):
+                ctx.violation("C12:l1:optimal:complex", "soft thresholding of complex input is not the minimiser of t*||x||_1 + 1/2||x-v||^2 (modulus shrunk, phase kept): max dev %.3g" % (
+                    float(np.max(np.abs(got - want))) if got.shape == want.shape else float("nan")), {"desc": desc, "v": z, "out": got})
+                return
     elif op == "l2":
         param = float(gen.choice(rs, [0.0, 0.1, 1.0, 10.0]) * scale)
         f = (lambda a: P.proximal_operator(a, l2_reg=param)) if via_dispatch and param else (lambda a: P.l2_prox(a, param))
@@ -350,6 +362,11 @@ def run_case(case, ctx):
         vin.setflags(write=False)
     elif present == "int-dtype" and np.all(v == np.round(v)) and float(np.max(np.abs(v), initial=0)) < 1e6:
         vin = v.astype(np.int64 if rs.rand() < 0.7 else np.int32)
+        if np.all(v >= 0) and rs.rand() < 0.5:
+            # counts / image columns: unsigned storage, where a difference taken in the input's own dtype wraps around
+            ok_ = [t for t in (np.uint8, np.uint16, np.uint32, np.uint64) if float(np.max(v, initial=0)) <= np.iinfo(t).max]
+            vin = v.astype(ok_[int(rs.randint(len(ok_)))])
+            present = "uint-dtype"
     else:
         present = "C"
     desc["presented_as"] = present
